@@ -406,6 +406,7 @@ def run(ctx):
 
     # ---- R8
     r8(ctx, p, cg, K)
+    r9(ctx, p)
 
     ctx.note("not decided: finiteness of samples in general / NaN only after runaway growth (numerical property of a recursive filter); R8 decides only the 0/0-from-an-empty-count part of `never out of nothing`")
     ctx.note("not decided: bounds checks and usize arithmetic inside the numeric kernels (counted in units_analysed.kernel_checks, not judged)")
@@ -694,6 +695,23 @@ def _nonzero_guard(gs, xs):
         if (op == "Eq" and not pos and v == 0) or (op == "Ne" and pos and v == 0) or (op == "Gt" and pos and v == 0) or (op == "Ge" and pos and v == 1) or (op == "Le" and not pos and v == 0) or (op == "Lt" and not pos and v == 1):
             return True
     return False
+
+
+def r9(ctx, p):
+    """index ranges of the LSP section chains (the one kernel whose two loops have *different*
+    bounds for odd orders, so a shared bound is an out-of-range index on real input)"""
+    ctx.rule("C01-R9", "lsp2lpc: every delay vector allocated with vec![0.0; N + 1] is indexed only up to N: its indices are loop variables of 0..N (plus 0 / 1) or N itself, N being the same section count the vector was sized with")
+    from .c13 import lsp_chain_bounds
+    res = lsp_chain_bounds(p)
+    if res is None:
+        ctx.fail("C01-R9", "vocoder::lsp::LineSpectralPairs::lsp2lpc", "anchor", "lsp2lpc not found")
+        return
+    ctx.anchor("C01-R9", "sized f64 vectors indexed in lsp2lpc", len(res), 6)
+    for name, okv, worst in res:
+        if okv:
+            ctx.ok("C01-R9", "lsp2lpc: every index of `%s` stays below its allocated length" % name)
+        else:
+            ctx.fail("C01-R9", "vocoder::lsp::LineSpectralPairs::lsp2lpc", "index range of " + name, "`%s` can be indexed past its end (%s): an LSP voice of the other parity of order panics in the first frame" % (name, worst))
 
 
 def r8(ctx, p, cg, K):
